@@ -17,10 +17,10 @@
                document is the same thing after the fact.
 
   Mirrors (jsonschema/to.go):
-    takeExamples   applyMeta: `if len(meta.Examples) > 0 && len(jsonSchema.Examples) == 0 { jsonSchema.Examples = meta.Examples }`
+    takeExamples   applyMeta: `if len(meta.Examples) > 0 && len(jsonSchema.Examples) == 0 { jsonSchema.Examples = slices.Clone(meta.Examples) }`
                    — `meta` is the struct copy `Registry.Get` returns: its `Examples []any` header still points at the registry
-                   entry's backing array.  `copy = false` is the code as it stands (the document ALIASES the registry entry),
-                   `copy = true` the repair (pending/C12-examples-clone.diff: `slices.Clone(meta.Examples)`).
+                   entry's backing array.  `copy = true` is the code since /repo 8997831 (`slices.Clone(meta.Examples)`),
+                   `copy = false` the code before it (the document ALIASED the registry entry), kept for the witness.
     convertO       converter.convert for one node: doConvert (the Bag part is `Store.convert`), applyMeta, getID + `$ref`
                    (`c.opts.URI`), `c.opts.Override(...)` at the very end.
 -/
